@@ -72,3 +72,15 @@ def compose_part(ctx):
 def rule(ctx):
     quick = ctx.tier == "quick"
     return RULE.format(d1=10 if quick else 13, d2=7 if quick else 8)
+
+
+def regen_only(ctx):
+    """properties whose composition theorems have no witness search yet (C01): regenerate the call orders so that the theorems are re-checked against the current source"""
+    p = subprocess.run([sys.executable, os.path.join(core.VERIF, "extract", "api_order.py")], capture_output=True, text=True)
+    if p.returncode != 0:
+        ctx.violation("compose:translator", "the call-order translator cannot account for the current source: " + p.stderr.strip()[-400:],
+                      dict(engine="translator", translator="extract/api_order.py", stderr=p.stderr[-3000:],
+                           broken=["Iox2.Gen.ApiOrder (cannot be regenerated)", "Iox2.Props.%sCompose" % ctx.prop]), nfi=True)
+        return False
+    ctx.extra["api_order"] = json.loads(p.stdout.strip().split("\n")[-1])["orders"]
+    return True
